@@ -67,7 +67,7 @@ class PythonParserGenerator(IndentPrintMixin, NodeWalker):
     def loopn(self) -> str:
         n = self.blockn
         # a = GREEKTOME[n]
-        a = string.ascii_letters[n]
+        a = string.ascii_letters[n] if n < len(string.ascii_letters) else f'_{n}'
         return f'cl{a}' if n > 0 else 'cl'
 
     def push_ctx(self, ctx: str):
